@@ -591,6 +591,8 @@ type ExploreOpt struct {
 	NShards  int
 	MaxExecs int
 	Deadline time.Time
+	// Before, if set, runs before every execution, outside the controlled mode (native set-up).
+	Before func()
 	// Prune, if set, is called after each execution with the execution; it returns a key for
 	// (state after step i) or "" — not used yet.
 }
@@ -611,6 +613,9 @@ func Explore(opt ExploreOpt, body func(), check func(s *Sched) bool) (st Explore
 		ro := opt.Run
 		ro.Prefix = prefix
 		ro.Expect = expect
+		if opt.Before != nil {
+			opt.Before()
+		}
 		s := Run(ro, body)
 		st.Execs++
 		st.Points += int64(len(s.Trace))
